@@ -51,6 +51,22 @@ def at_floor(c, *datasets):
     return False
 
 
+def gauss_log_error(c, *datasets):
+    """a bound on the rounding error of one Gaussian log-variance term: the variance of a short window
+    is a difference of prefix-sum quotients whose absolute error is about eps * n * max|x|^2, so the
+    error of its logarithm is that divided by the window variance (>= ~0.2 * min adjacent diff^2)"""
+    uses_gauss = "gvar" in c.get("scorer", "") or c.get("cost") == "gvar"
+    if not uses_gauss:
+        return 0.0
+    worst = 0.0
+    for Z in datasets:
+        d = np.abs(np.diff(Z, axis=0))
+        vmin = 0.2 * float(d.min()) ** 2 if d.size else 1.0
+        mag2 = float(np.abs(Z).max()) ** 2
+        worst = max(worst, 2.2e-16 * len(Z) * mag2 / max(vmin, 1e-300))
+    return worst
+
+
 def transform(c, X):
     g = np.random.default_rng(c["seed"] + 1)
     sym = c["sym"]
@@ -136,7 +152,10 @@ def impl_scorer(c):
             cb = [tuple(n - v for v in reversed(q)) for q in bt] if c["sym"] == "reverse" else bt
             vb += b.evaluate(np.array(cb)).tolist()
             cuts += bt
-        return {"outcome": "ok", "cuts": cuts, "a": va, "b": vb, "info": info,
+        gerr = gauss_log_error(c, X, Y)
+        if 200 * n * gerr > 1e-3:
+            return {"outcome": "skip:ill-conditioned-variance"}
+        return {"outcome": "ok", "cuts": cuts, "a": va, "b": vb, "info": info, "gerr": gerr,
                 "mag": float(np.abs(np.concatenate((X, Y))).max())}
     except RuntimeError as ex:
         return {"outcome": "skip:not-positive-definite"}
@@ -156,7 +175,7 @@ def oracle_scorer(c, r):
     elif is_l2:
         tol = 1e-9 * (1 + r["mag"] ** 2) * c["n"]
     else:
-        tol = 1e-7 * c["n"] * (1 + np.log1p(r["mag"]))
+        tol = 1e-7 * c["n"] * (1 + np.log1p(r["mag"])) + 200 * c["n"] * r.get("gerr", 0.0)
     bad = np.argwhere(~(np.abs(a - b) <= tol + 1e-9 * np.abs(a)))
     if len(bad):
         i, j = bad[0]
@@ -215,9 +234,9 @@ def expected(c, a, info):
     return e
 
 
-def same(c, e, b):
+def same(c, e, b, gerr=0.0):
     if c["sym"] == "reverse":  # only PELT's optimal cost is claimed
-        return abs(e["final"] - b["final"]) <= 1e-8 * (1 + abs(e["final"]))
+        return abs(e["final"] - b["final"]) <= 1e-8 * (1 + abs(e["final"])) + 200 * c["n"] * gerr
     if e["ev"] != b["ev"]:
         return False
     if "cols" in e and [sorted(x) for x in e["cols"]] != [sorted(x) for x in b["cols"]]:
@@ -233,9 +252,12 @@ def impl_det(c):
         Y, info = transform(c, X)
         if at_floor(c, X, Y):
             return {"outcome": "skip:variance-at-floor"}
+        gerr = gauss_log_error(c, X, Y)
+        if 200 * c["n"] * gerr > 1e-3:
+            return {"outcome": "skip:ill-conditioned-variance"}
         a, b = det_output(c, X), det_output(c, Y)
         e = expected(c, a, info)
-        ok = same(c, e, b)
+        ok = same(c, e, b, gerr)
         persists = 0
         if not ok:  # is the difference a rounding-level tie?  perturb the data slightly and retry
             g = np.random.default_rng(c["seed"] + 7)
@@ -243,7 +265,7 @@ def impl_det(c):
                 Xp = X * (1 + 1e-9 * g.normal(size=X.shape))
                 Yp, info_p = transform(c, Xp)
                 ap, bp = det_output(c, Xp), det_output(c, Yp)
-                persists += 0 if same(c, expected(c, ap, info_p), bp) else 1
+                persists += 0 if same(c, expected(c, ap, info_p), bp, gerr) else 1
         return {"outcome": "ok", "same": ok, "persists": persists, "a": a, "b": b, "expected": e}
     except RuntimeError:
         return {"outcome": "skip:not-positive-definite"}
